@@ -597,8 +597,243 @@ def oracle_projects(ctx):
         PROJECTS.append((case, res))
 
 
+# ------------------------------------------------------------------ sandboxed steps at the StepSpec level
+
+SBX_SCRIPT = """\
+{cat} /proc/self/environ > .dump.env
+for a in "$@"; do printf '%s\\0' "$a"; done > .dump.args
+shopt -s nullglob dotglob
+for d in {proj} {proj}/* {proj}/dev/*/*/*/workspace {proj}/dev/*/*/*/workspace/* /bob/*/workspace /bob/*/workspace/* /mnt/*; do printf '%s\\0' "$d"; done > .dump.ls
+for t in "$PWD" {proj} /tmp /etc /usr "$@" {proj}/dev/*/*/*/workspace /bob/*/workspace /mnt/*; do
+    if [[ -d "$t" ]] && ( : > "$t/.wprobe" ) 2>/dev/null; then printf 'W %s\\0' "$t"; else printf 'R %s\\0' "$t"; fi
+done > .dump.w
+true
+"""
+
+
+def gen_sandbox_case(r, idx, mode):
+    """a project directory with an own workspace, declared and undeclared neighbours; mode slim | image"""
+    ndeps = r.randrange(0, 4)
+    nothers = r.randrange(1, 3)
+    deps = ["dep%d" % i for i in range(ndeps)]
+    others = ["other%d" % i for i in range(nothers)]
+    own = r.choice(["own", "o w n", "own's", "öwn"])
+    case = {
+        "idx": idx, "mode": mode, "own": own, "deps": deps, "others": others,
+        "stable": mode == "image" and r.random() < 0.7,
+        "env": {r.choice(NAME_POOL): gen_value(r) for _ in range(r.randrange(0, 4))},
+        "whitelist": sorted(set(r.sample(["PATH", "TERM", "HOME", "WL1"], r.randrange(0, 4)))),
+        "host": {"PATH": "/usr/bin:/bin", "DECOY1": gen_value(r), "WL1": gen_value(r), "TERM": "dumb"},
+        "preserve": False,
+        "netAccess": r.random() < 0.3,
+        "envFile": r.random() < 0.5,
+        "user": r.choice(["nobody", "root", "$USER"]),
+        "rw_mount": mode == "image" and r.random() < 0.6,
+        "ro_mount": mode == "image" and r.random() < 0.6,
+        "dup_dep": ndeps > 0 and r.random() < 0.3,
+    }
+    return case
+
+
+def run_sandbox_case(arg):
+    """(worker) lay out the project, run the step through the real Invoker with the sandbox helper, record the helper argv"""
+    case, root, repo = arg
+    import asyncio
+    import asyncio.base_events as be
+    import io
+    from bob.languages import StepSpec
+    from bob.invoker import Invoker, InvocationMode
+    t = tools()
+    base = os.path.join(root, "s%d" % case["idx"])
+    proj = os.path.join(base, "proj")
+    res = {"base": base, "proj": proj}
+    saved_env = dict(os.environ)
+    saved_cwd = os.getcwd()
+    orig = be.BaseEventLoop.subprocess_exec
+    captured = []
+    try:
+        ws = lambda n: os.path.join("dev", "dist", n, "1", "workspace")
+        own_ws = os.path.join("dev", "build", case["own"], "1", "workspace")
+        os.makedirs(os.path.join(proj, own_ws))
+        for n in case["deps"] + case["others"]:
+            os.makedirs(os.path.join(proj, ws(n)))
+            with open(os.path.join(proj, ws(n), "content-" + n), "w") as f:
+                f.write(n)
+        with open(os.path.join(proj, "secret.txt"), "w") as f:
+            f.write("s")
+        os.makedirs(os.path.join(proj, "recipes"))
+        image = os.path.join("dev", "dist", "image", "1", "workspace")
+        ex = (lambda n, p: "/bob/%s/workspace" % n) if case["stable"] else (lambda n, p: p)
+        dep_mounts = [[ws(n), ex(n, ws(n))] for n in case["deps"]]
+        if case["dup_dep"]:
+            dep_mounts.append(list(dep_mounts[0]))
+        sandbox = None
+        hostdirs = {}
+        if case["mode"] == "image":
+            os.makedirs(os.path.join(proj, image, "imgdir"))
+            with open(os.path.join(proj, image, "image-canary"), "w") as f:
+                f.write("i")
+            mounts = [["/usr", "/usr", []], ["/bin", "/bin", ["nofail"]], ["/lib", "/lib", ["nofail"]], ["/lib64", "/lib64", ["nofail"]],
+                      ["/lib32", "/lib32", ["nofail"]], ["/nonexistent-c13", "/nonexistent-c13", ["nofail"]],
+                      ["/etc", "/etc", ["nolocal"]]]
+            for kind, opts in (("rw_mount", ["rw"]), ("ro_mount", [])):
+                if case[kind]:
+                    hd = os.path.join(base, "host-" + kind)
+                    os.makedirs(hd)
+                    hostdirs[kind] = hd
+                    mounts.append([hd, "/mnt/" + kind, opts])
+            sandbox = {"root": image, "paths": ["/usr/bin", "/bin"], "hostMounts": mounts, "user": case["user"]}
+            dep_mounts.append([image, ex("image", image)])
+        sc = dict(case, paths=[], libraryPaths=[], ws=own_ws, wsExec=ex("own", own_ws), args=[ex(n, ws(n)) for n in case["deps"]],
+                  allPaths=[], depPaths=[], toolPaths=[])
+        d = spec_dict(sc, os.path.join(proj, "dev", "build", case["own"], "1"), SBX_SCRIPT.format(cat=t["cat"], proj=proj),
+                      slim=case["mode"] == "slim", sandbox=sandbox, dep_mounts=dep_mounts,
+                      env_file=os.path.join("dev", "build", case["own"], "1", "env") if case["envFile"] else None)
+        d["netAccess"] = case["netAccess"]
+        res["spec"] = d
+        os.chdir(proj)
+
+        async def recording(self, protocol_factory, program, *args, **kwargs):
+            captured.append({"argv": [program] + list(args), "env": dict(kwargs.get("env") or {}), "cwd": kwargs.get("cwd")})
+            return await orig(self, protocol_factory, program, *args, **kwargs)
+        be.BaseEventLoop.subprocess_exec = recording
+        spec = StepSpec.fromFile(io.StringIO(json.dumps(d)))
+        res["rootEntries"] = os.listdir("/") if case["mode"] == "slim" else os.listdir(os.path.join(proj, image))
+        os.environ.clear()
+        os.environ.update(case["host"])
+        inv = Invoker(spec, False, True, False, False, False, True)
+        loop = asyncio.new_event_loop()
+        try:
+            res["ret"] = loop.run_until_complete(inv.executeStep(InvocationMode.CALL, False))
+        finally:
+            loop.close()
+        if res["ret"] != 0:
+            res["stdio"] = inv.getStdio()[-600:]
+        res["captured"] = captured
+        wsdir = os.path.join(proj, own_ws)
+        try:
+            from gen import c13proj
+            res["env"] = c13proj.parse_environ(open(os.path.join(wsdir, ".dump.env"), "rb").read())
+            raw = open(os.path.join(wsdir, ".dump.args"), "rb").read()
+            res["args"] = [_decode(x) for x in raw.split(b"\0")[:-1]] if raw else []
+            res["ls"] = [_decode(x) for x in open(os.path.join(wsdir, ".dump.ls"), "rb").read().split(b"\0")[:-1]]
+            res["w"] = [_decode(x) for x in open(os.path.join(wsdir, ".dump.w"), "rb").read().split(b"\0")[:-1]]
+        except OSError as e:
+            res["dump_error"] = str(e)
+        import glob
+        res["probes"] = sorted(glob.glob(os.path.join(proj, ".wprobe")) + glob.glob(os.path.join(proj, "dev", "*", "*", "*", "workspace", ".wprobe")) +
+                               glob.glob(os.path.join(base, "host-*", ".wprobe")))
+        res["hostdirs"] = hostdirs
+        res["exec"] = {n: ex(n, os.path.join(proj, ws(n))) for n in case["deps"] + case["others"]}
+        res["own_exec"] = ex("own", os.path.join(proj, own_ws))
+        res["own_storage"] = os.path.join(proj, own_ws)
+    except Exception as e:  # noqa
+        res["exception"] = "%s: %s" % (type(e).__name__, e)
+    finally:
+        be.BaseEventLoop.subprocess_exec = orig
+        os.environ.clear()
+        os.environ.update(saved_env)
+        os.chdir(saved_cwd)
+    return res
+
+
+def judge_sandbox(ctx, case, res):
+    rec = {"kind": "sandbox", "case": case}
+    if "exception" in res:
+        ctx.violation("sandboxed step raised " + res["exception"], rec, "sandbox-exception")
+        return False
+    if res.get("ret") != 0 or "dump_error" in res:
+        ctx.violation("sandboxed step failed (exit %r): %s %s" % (res.get("ret"), res.get("stdio"), res.get("dump_error")), rec, "sandbox-step-failed")
+        return False
+    proj = res["proj"]
+    ok = True
+    own = res["own_exec"]
+    declared = {res["exec"][n] for n in case["deps"]}
+    visible_ws = {p for p in res["ls"] if p.endswith("/workspace")}
+    for p in sorted(visible_ws):
+        if p != own and p not in declared and not (case["mode"] == "image" and p.endswith("/image/workspace") or p == os.path.join(proj, "dev/dist/image/1/workspace")):
+            ctx.violation("workspace %s is visible in the %s sandbox but not a declared dependency" % (p, case["mode"]), rec,
+                          "sandbox-undeclared-workspace-visible")
+            ok = False
+    for p in sorted(declared | {own}):
+        if p not in visible_ws:
+            ctx.violation("declared dependency %s is not visible in the %s sandbox" % (p, case["mode"]), rec, "sandbox-dependency-missing")
+            ok = False
+    for n in case["deps"]:
+        if os.path.join(res["exec"][n], "content-" + n) not in res["ls"]:
+            ctx.violation("content of declared dependency %s is not visible" % n, rec, "sandbox-dependency-missing")
+            ok = False
+    for n in case["others"]:
+        if any(("content-" + n) in p for p in res["ls"]):
+            ctx.violation("content of the undeclared workspace %s is visible" % n, rec, "sandbox-undeclared-workspace-visible")
+            ok = False
+    if any(os.path.basename(p) in ("secret.txt", "recipes") and os.path.dirname(p) == proj for p in res["ls"]):
+        ctx.violation("files of the project directory are visible inside the %s sandbox" % case["mode"], rec, "sandbox-project-visible")
+        ok = False
+    # the project directory inside a sandbox is private: the whiteout (slim) or plain directories of the sandbox root (image)
+    writable_ok = {own, "/tmp", proj}
+    if case.get("rw_mount"):
+        writable_ok.add("/mnt/rw_mount")
+    for item in res["w"]:
+        mode, p = item[0], item[2:]
+        if mode == "W" and p not in writable_ok:
+            ctx.violation("%s is writable inside the %s sandbox" % (p, case["mode"]), rec,
+                          "sandbox-dependency-writable" if p in declared else "sandbox-writable-outside-workspace")
+            ok = False
+        if mode == "R" and p == own:
+            ctx.violation("the step's own workspace is read-only inside the sandbox", rec, "sandbox-workspace-readonly")
+            ok = False
+    allowed_probes = {os.path.join(res["own_storage"], ".wprobe")}
+    if case.get("rw_mount") and "rw_mount" in res.get("hostdirs", {}):
+        allowed_probes.add(os.path.join(res["hostdirs"]["rw_mount"], ".wprobe"))
+    for f in res["probes"]:
+        if f not in allowed_probes:
+            ctx.violation("a write inside the sandbox reached %s on the host" % f, rec, "sandbox-write-escaped")
+            ok = False
+    # environment: the same rule as without sandbox (HOME/PWD are the helper's business)
+    got = strip_internal(res["env"])
+    got.pop("HOME", None)
+    hostvis = {k: v for k, v in case["host"].items() if k in case["whitelist"] and k != "HOME"}
+    want = dict(hostvis)
+    want.update(case["env"])
+    base_path = "/usr/bin:/bin" if case["mode"] == "image" else (hostvis["PATH"] if "PATH" in hostvis else tools()["default_path"])
+    want["PATH"] = base_path
+    want["LD_LIBRARY_PATH"] = ""
+    want["BOB_CWD"] = own
+    if got != want:
+        diff = {k: (got.get(k), want.get(k)) for k in set(got) | set(want) if got.get(k) != want.get(k)}
+        leak = any(k in case["host"] and k not in want for k in got)
+        ctx.violation("environment inside the %s sandbox differs from the declaration: (seen, declared) %r" % (case["mode"], diff), rec,
+                      "host-variable-leak" if leak else "env-value-mismatch")
+        ok = False
+    if res["args"] != [res["exec"][n] for n in case["deps"]]:
+        ctx.violation("arguments inside the sandbox %r" % res["args"], rec, "args-mismatch")
+        ok = False
+    return ok
+
+
+def sandbox_cases(ctx):
+    r = ctx.subrng("sandbox")
+    n = ctx.scale(24, 600)
+    return [gen_sandbox_case(r, i, "slim" if i % 2 == 0 else "image") for i in range(n)]
+
+
 def oracle_sandbox(ctx):
-    pass
+    if not sandbox_available():
+        ctx.skip("sandboxed steps: bob-namespace-sandbox -C fails here (no user namespaces); only the helper argv is compared with the model")
+        return
+    if ctx.time_left() < 45:
+        ctx.skip("sandboxed steps (time)")
+        return
+    cases = sandbox_cases(ctx)
+    root = os.path.join(ctx.tmp, "sbx")
+    os.makedirs(root, exist_ok=True)
+    results = ctx.parallel(run_sandbox_case, [(c, root, ctx.repo) for c in cases])
+    for case, res in zip(cases, results):
+        ok = judge_sandbox(ctx, case, res)
+        ctx.case(dict(case, kind="sandbox"))
+        ctx.count("oracle_sandbox", "%s:%s" % (case["mode"], "ok" if ok else "violation"))
+        SANDBOXED.append((case, res))
 
 
 # ------------------------------------------------------------------ correspondence with the Lean model
